@@ -5,6 +5,11 @@ from __future__ import annotations
 from docutils import nodes
 
 
+# scratch containers that a directive's nested parse was given (filled by a hook of the C03 check on MockState.nested_parse, observing only);
+# None = no hook installed (the repository-suite monitor): every bare Element root counts as such a container
+SCRATCH = None
+
+
 def _dangling_key(reg):
     """Mechanism key for 'registered in document.ids but not part of the tree': WHO threw the node away."""
     from docutils import nodes
@@ -13,7 +18,7 @@ def _dangling_key(reg):
     while x.parent is not None and any(c is x for c in x.parent.children):
         x = x.parent
     # x is the top of the detached piece: a true root, or a node that its (stale) parent no longer lists
-    if x.parent is None and (type(x) is nodes.Element or isinstance(x, nodes.title)):
+    if x.parent is None and ((type(x) is nodes.Element and (SCRATCH is None or any(x is c for c in SCRATCH))) or isinstance(x, nodes.title)):
         # a directive nested-parsed its content into a scratch container and then rejected it (docutils' own tables do this)
         return "dangling:registered-node-not-in-tree:nested-parse-result-discarded"
     if x.parent is not None and isinstance(x, (nodes.topic, nodes.pending)) and ("contents" in x.get("classes", []) or isinstance(x, nodes.pending)):
